@@ -123,9 +123,9 @@ Step(toks, fe, s, i) ==
                                             !.fline = s.line, !.vstart = i + 1]
             ELSE StepO(toks, Abort(toks, fe, s, i), i, k)
       [] s.ctl = "V" ->
-            IF k = "QT" /\ s.d = 0 THEN [s EXCEPT !.q = ~@]
-            ELSE IF k = "LB" /\ ~s.q THEN [s EXCEPT !.d = @ + 1]
-            ELSE IF k = "RB" /\ ~s.q /\ s.d > 0 THEN [s EXCEPT !.d = @ - 1]
+            IF k = "QT" /\ s.d = 0 THEN [s EXCEPT !.q = ~@]          \* a quote inside braces is inert
+            ELSE IF k = "LB" THEN [s EXCEPT !.d = @ + 1]               \* braces nest inside quotes as well
+            ELSE IF k = "RB" /\ s.d > 0 THEN [s EXCEPT !.d = @ - 1]
             ELSE IF k \in {"CM", "RB"} /\ ~s.q /\ s.d = 0 THEN
                  LET f  == [key |-> s.fkeyR, val |-> Trim(toks, s.vstart, i), line |-> s.fline]
                      fs == Append(s.fields, f)
